@@ -102,6 +102,8 @@ def dec_kw(kw):
                 out[key] = tuple(tuple(p) for p in v) if isinstance(v[0], (list, tuple)) else tuple(v)
             elif t == 'listoftuples' and isinstance(v[0], (list, tuple)):
                 out[key] = [tuple(p) for p in v]
+            elif t == 'arr':
+                out[key] = np.array(v, dtype=float)
         elif key in ('MRTS', 'max_tau', 'threshold'):
             if t == 'int' and float(v) == int(v):
                 out[key] = int(v)
@@ -421,6 +423,10 @@ def generate(prop, rng, tier):
                 iv = gen.gen_interval(rng, wp, [t for i in sel for t in pool[i]])
             if m == 'order' and rng.random() < 0.3:
                 kw['normalize'] = True
+            if iv is not None and rng.random() < 0.06:
+                # an ndarray interval: rejected alike by both routes of the pinned tree (then nothing is
+                # compared); if a tree accepts it, C05 applies to it like to any accepted interval
+                kw.setdefault('__ty', {})['interval'] = 'arr'
             ops.append({'op': 'svp', 'm': m, 'form': form, 'sel': sel, 'kw': kw, 'iv': iv,
                         'ivkw': iv is not None or rng.random() < 0.3})
     elif prop == 'C07':
